@@ -12,7 +12,7 @@ class Prop:
     id = "C13"
     level = "exploration"
     engine = "VT"
-    quick_runs = 60000
+    quick_runs = 100000
     thorough_runs = 2500000
     rule = ("tuples of 1-4 cold/hot/sync timelines (interleaved, simultaneous, empty, erroring) through zip, combine_latest, "
             "with_latest_from, fork_join and amb, each in operator and factory form; output (values, virtual times, terminal) and every "
